@@ -232,6 +232,28 @@ struct throwing_buf : std::streambuf
   int_type underflow() override { throw std::runtime_error("device error"); }
 };
 
+// accepts `room` bytes, then refuses (a full device): mode 0 answers eof from overflow, mode 1 throws from it
+struct bounded_sink : std::streambuf
+{
+  std::string got;
+  std::size_t room;
+  int mode;
+  bounded_sink(std::size_t r, int m) : room(r), mode(m) {}
+  int_type overflow(int_type c) override
+  {
+    if (traits_type::eq_int_type(c, traits_type::eof()))
+      return traits_type::not_eof(c);
+    if (got.size() >= room)
+    {
+      if (mode == 1)
+        throw std::runtime_error("device full");
+      return traits_type::eof();
+    }
+    got += traits_type::to_char_type(c);
+    return c;
+  }
+};
+
 template <class T>
 void rw_one(T v, std::string const &e)
 {
@@ -297,6 +319,27 @@ void rw_one(T v, std::string const &e)
       }
       VF_COUNT("io/read-from-failed-stream");
     }
+    // writing to a device that takes fewer bytes than the value has: the failure must be visible in the stream state
+    // (a value is written completely or the write is reported as failed), and nothing but a prefix of the encoding arrives
+    for (int mode = 0; mode <= 1; ++mode)
+      for (std::size_t room = 0; room <= sizeof(T); ++room)
+      {
+        bounded_sink sink(room, mode);
+        std::ostream o(&sink);
+        fcppt::io::write(o, v, en);
+        if (room == sizeof(T))
+        {
+          if (!o.good() || sink.got != b)
+            vf::violation(e + "/write/bounded-sink-with-room", "mismatch", "room for the whole value, stream state " + std::to_string(o.rdstate()));
+          continue;
+        }
+        if (o.good())
+          vf::violation(e + "/write/truncated-but-stream-good", "mismatch",
+                        "the device took " + std::to_string(sink.got.size()) + " of " + std::to_string(sizeof(T)) + " bytes and the stream is still good()");
+        if (sink.got.size() > room || b.compare(0, sink.got.size(), sink.got) != 0)
+          vf::violation(e + "/write/truncated-bytes", "mismatch", "not a prefix of the encoding");
+        VF_COUNT("io/write-to-full-device");
+      }
     T c1 = fcppt::endianness::convert(fcppt::endianness::convert(v, en), en);
     if (std::memcmp(&c1, &v, sizeof(T)) != 0)
       vf::violation(e + "/convert-twice", "mismatch", "bits " + std::to_string(static_cast<std::uint64_t>(u)));
@@ -962,7 +1005,7 @@ void io_string_wrappers()
 
 void body()
 {
-  for (char const *b : {"io/write-read", "vector/sequences-in-one-stream", "vector/non-decimal-base-roundtrips", "io/read-from-failed-stream", "text/grouping-locale/written-with-separator", "text/roundtrips", "text/char-types", "text/malformed", "enum/roundtrips", "enum/non-names",
+  for (char const *b : {"io/write-read", "vector/sequences-in-one-stream", "vector/non-decimal-base-roundtrips", "io/read-from-failed-stream", "io/write-to-full-device", "text/grouping-locale/written-with-separator", "text/roundtrips", "text/char-types", "text/malformed", "enum/roundtrips", "enum/non-names",
                         "vector/roundtrips", "vector/malformed", "utf8/strings", "utf8/scalars-singly", "utf8/narrow-growth/x4",
                         "utf8/narrow-growth/x2-3", "utf8/narrow-growth/lt-x2", "utf8/incomplete-input", "utf8/invalid-input",
                         "utf8/env-locale-strings", "io-string/roundtrips"})
